@@ -385,4 +385,38 @@ theorem sh_scriptsig_size_counts_redeem (t : List Item) (n : Nat) :
       ((t.map Item.size).sum + pushLen n) + varintLen ((t.map Item.size).sum + pushLen n) := by
   simp [scriptsigSize, DescType.segwitVersion]
 
+/-! ## items and sizes — what the per-item judge (`J tmpl-items`) buys -/
+
+/-- an item that fits its placeholder serializes (length prefix + bytes) within the size the
+placeholder announces -/
+theorem item_fits_size (it : Item) (len : Nat) (h : it.fits len = true) :
+    varintLen len + len ≤ it.size := by
+  cases it with
+  | ph p =>
+    cases p <;> simp [Item.fits] at h <;> simp [Item.size, Ph.size, varintLen] <;> (try split) <;> omega
+  | tapScript n => simp [Item.fits] at h; subst h; simp [Item.size]; omega
+  | tapControl n => simp [Item.fits] at h; subst h; simp [Item.size]; omega
+
+/-- hence a witness whose items fit the template one by one serializes within
+`witness_size(template)` — the announced `Plan::witness_size` of `wpkh`, `sh(wpkh)` and `tr`
+(whose witness is exactly the completed template) is an upper bound of the real size -/
+theorem witness_size_upper_bound (t : List Item) (ls : List Nat) (hlen : ls.length = t.length)
+    (h : ∀ p ∈ t.zip ls, p.1.fits p.2 = true) :
+    varintLen ls.length + (ls.map fun l => varintLen l + l).sum ≤ templateSize t := by
+  unfold templateSize
+  have hsum : (ls.map fun l => varintLen l + l).sum ≤ (t.map Item.size).sum := by
+    induction t generalizing ls with
+    | nil => cases ls <;> simp_all
+    | cons it t ih =>
+      cases ls with
+      | nil => simp at hlen
+      | cons l ls =>
+        simp only [List.map_cons, List.sum_cons]
+        have h1 := item_fits_size it l (h (it, l) (by simp))
+        have h2 := ih ls (by simpa using hlen) (fun p hp => h p (by simp [hp]))
+        omega
+  rw [hlen]; omega
+
+example : Plan.witnessSize .tr [.ph (.schnorrSig 0 64)] = templateSize [.ph (.schnorrSig 0 64)] := by decide
+
 end MsVerif.C17
